@@ -11,7 +11,7 @@ From stdpp Require Import gmap strings.
 From Coq Require Import NArith.
 From Verif Require Store.Model.
 From Verif Require Import Catalog.StoreOrphans.
-From Verif Require Import Catalog.Model Catalog.Spec Catalog.VIP Catalog.Reach Catalog.Refuted Catalog.Usage Catalog.KindNames Catalog.Examples Catalog.Orphans.
+From Verif Require Import Catalog.Model Catalog.Spec Catalog.VIP Catalog.Reach Catalog.Refuted Catalog.Usage Catalog.KindNames Catalog.Examples Catalog.Orphans Catalog.Topology.
 Local Open Scope N_scope.
 
 Module S := Verif.Store.Model.
@@ -80,26 +80,23 @@ Theorem C07_vip_unique : forall s, CReach s ->
   forall n1 n2 ip m1 m2, vips s !! n1 = Some (ip, m1) -> vips s !! n2 = Some (ip, m2) -> n1 = n2.
 Proof. exact vip_unique. Qed.
 
-(* FULL STATEMENT (false): in every reachable state, an instance that advertises a virtual IP
-   advertises the current assignment of its service (for a sidecar proxy: of its destination):
-     forall s, CReach s -> forall k v ip n, services s !! k = Some v -> sv_vip v = Some ip ->
-       connect_name v = Some n -> exists m, vips s !! n = Some (ip, m).
-   Refuted: freeServiceVirtualIP only looks for instances NAMED like the service, so the assignment
-   of "web" is freed while web's sidecar proxy still advertises it, and the address is handed to the
-   next service. *)
-Theorem C07_vip_advertised_refuted : exists s, CReach s /\
-  (exists v, services s !! ("n1", "s1") = Some v /\ sv_vip v = Some 1 /\ connect_name v = Some "web") /\
-  vips s !! "web" = None /\
-  (exists v, services s !! ("n1", "s2") = Some v /\ sv_vip v = Some 1 /\ connect_name v = Some "db") /\
-  vips s !! "db" = Some (1, []).
-Proof. exists (run vip_log st0).1. split; [apply CReach_run|exact vip_advertised_witness]. Qed.
-
-(* ... it holds for the instances that are not sidecar proxies (connect-native services) *)
-Theorem C07_vip_advertised_partial : forall s, CReach s ->
+(* in every reachable state, an instance that advertises a virtual IP is in the connect index and
+   advertises the current assignment of the service it is indexed under (its own name if
+   connect-native, its destination if a sidecar proxy).  True of every instance since /repo 8e1bd1c
+   (freeServiceVirtualIP looks at the connect index); before, it was refuted for sidecar proxies. *)
+Theorem C07_vip_advertised : forall s, CReach s ->
   forall k v ip, services s !! k = Some v -> sv_vip v = Some ip ->
-    sv_native v = true -> sv_kind v ≠ KProxy ->
-    exists m, vips s !! sv_name v = Some (ip, m).
-Proof. exact vip_advertised_native. Qed.
+    exists n m, connect_name v = Some n /\ vips s !! n = Some (ip, m).
+Proof. exact vip_advertised. Qed.
+
+(* the history that used to refute it (a service-defaults entry written and deleted under a live
+   sidecar proxy, then another connect service): web keeps address 1, db gets 2 *)
+Example C07_vip_advertised_example : exists s, CReach s /\
+  (exists v, services s !! ("n1", "s1") = Some v /\ sv_vip v = Some 1 /\ connect_name v = Some "web") /\
+  vips s !! "web" = Some (1, []) /\
+  (exists v, services s !! ("n1", "s2") = Some v /\ sv_vip v = Some 2 /\ connect_name v = Some "db") /\
+  vips s !! "db" = Some (2, []).
+Proof. exists (run vip_log st0).1. split; [apply CReach_run|exact vip_repaired_example]. Qed.
 
 (* ================= derived views (catalog model) ================= *)
 (* FULL STATEMENT (false): in every reachable state every derived view equals its recomputation from
@@ -170,15 +167,45 @@ Example C07_derived_kindnames_example :
 Proof. exact kn_example. Qed.
 
 (* ---- mesh-topology ---- *)
-(* a pair declared by two proxy instances keeps only the latest as its reference, and disappears with it *)
+(* What holds (the content of /repo acb191c), for arbitrary states: registering an instance adds it to
+   the references of every pair it lists and removes nobody else's reference from those pairs; pairs
+   of other destinations are untouched. *)
+Theorem C07_topology_refs_kept : forall nd sid dest ups existing s u, u ∈ ups ->
+  let s' := update_mesh_topology nd sid dest ups existing s in
+  is_Some (topo s' !! (u, dest)) /\ (nd, sid) ∈ refs_of s' (u, dest) /\ refs_of s (u, dest) ⊆ refs_of s' (u, dest).
+Proof. exact update_mesh_topology_keeps_refs. Qed.
+
+Theorem C07_topology_other_destination : forall nd sid dest ups existing s p,
+  p.2 ≠ dest -> topo (update_mesh_topology nd sid dest ups existing s) !! p = topo s !! p.
+Proof. exact update_mesh_topology_other_destination. Qed.
+
+(* the history that used to lose a reference (two proxy instances declare the same upstream, the
+   second is deregistered) now agrees with the recomputation after every step *)
+Example C07_derived_topology_example :
+  topo (run (take 2 topo_log) st0).1 !! ("db", "web") = Some {[ ("n1", "s1"); ("n2", "s1") ]} /\
+  topo (run (take 2 topo_log) st0).1 = recompute_topo (run (take 2 topo_log) st0).1 /\
+  topo (run topo_log st0).1 !! ("db", "web") = Some {[ ("n1", "s1") ]} /\
+  topo (run topo_log st0).1 = recompute_topo (run topo_log st0).1.
+Proof. exact topology_repaired_example. Qed.
+
+(* FULL STATEMENT (still false): forall s, CReach s -> topo s = recompute_topo s.  Three reachable
+   states in which the table differs from the recomputation:
+   (1) an instance that stops listing an upstream deletes the pair although another instance still
+       declares it;
+   (2) an instance re-registered as a non-proxy keeps the pairs it declared as a proxy;
+   (3) an ingress gateway lists a service on one listener and "*" on another: when the service's last
+       connect instance goes, the wildcard-derived association is removed and takes the (service,
+       gateway) pair with it although the listed association remains. *)
 Theorem C07_derived_topology_refuted :
-  (exists s, CReach s /\ topo s !! ("db", "web") = Some {[ ("n2", "s1") ]} /\ topo s ≠ recompute_topo s) /\
-  (exists s, CReach s /\ topo s !! ("db", "web") = None /\
-             recompute_topo s !! ("db", "web") = Some {[ ("n1", "s1") ]}).
+  (exists s, CReach s /\ topo s !! ("db", "web") = None /\ recompute_topo s !! ("db", "web") = Some {[ ("n1", "s1") ]}) /\
+  (exists s, CReach s /\ topo s !! ("db", "web") = Some {[ ("n1", "s1") ]} /\ recompute_topo s !! ("db", "web") = None) /\
+  (exists s, CReach s /\ topo s !! ("web", "igw") = None /\ is_Some (gws s !! ("igw", "web", 8080)) /\
+             recompute_topo s !! ("web", "igw") = Some ∅).
 Proof.
-  destruct topology_witness as (H1 & H2 & H3 & H4). split.
-  - exists (run (take 2 topo_log) st0).1. split; [apply CReach_run|split; assumption].
-  - exists (run topo_log st0).1. split; [apply CReach_run|split; assumption].
+  split; [|split].
+  - exists (run topo_drop_log st0).1. split; [apply CReach_run|exact topology_witness].
+  - exists (run topo_redef_log st0).1. split; [apply CReach_run|exact topology_witness2].
+  - exists (run topo_gw_log st0).1. split; [apply CReach_run|exact topology_witness3].
 Qed.
 
 (* ---- gateway-services ---- *)
@@ -196,7 +223,7 @@ Proof.
 Qed.
 
 (* non-vacuity for the virtual IP theorems: two services with addresses 1 and 2, a connect-native
-   instance advertising its service's address *)
+   instance advertising its service's address (C07_vip_advertised_example has a sidecar proxy) *)
 Example C07_vip_example :
   let s := (run (take 4%nat usage_example_log) st0).1 in
   CReach s /\ vips s !! "web" = Some (1, []) /\ vips s !! "db" = Some (2, []) /\
@@ -212,8 +239,8 @@ Print Assumptions C07_no_orphans_catalog.
 Print Assumptions C07_cascade_node_catalog.
 Print Assumptions C07_cascade_service_catalog.
 Print Assumptions C07_vip_unique.
-Print Assumptions C07_vip_advertised_refuted.
-Print Assumptions C07_vip_advertised_partial.
+Print Assumptions C07_vip_advertised.
+Print Assumptions C07_vip_advertised_example.
 Print Assumptions C07_derived_usage_refuted.
 Print Assumptions C07_derived_usage_partial.
 Print Assumptions C07_derived_usage_step.
@@ -221,5 +248,8 @@ Print Assumptions C07_derived_usage_example.
 Print Assumptions C07_derived_kindnames_refuted.
 Print Assumptions C07_derived_kindnames_partial.
 Print Assumptions C07_derived_kindnames_example.
+Print Assumptions C07_topology_refs_kept.
+Print Assumptions C07_topology_other_destination.
+Print Assumptions C07_derived_topology_example.
 Print Assumptions C07_derived_topology_refuted.
 Print Assumptions C07_derived_gateway_refuted.
